@@ -229,3 +229,27 @@ Definition ltx_file_ok (x : sx) : sx :=
        && negb (in_ranges lock rs)
        && covers_interval lock (prev + 1) commit rs
        && (negb full || sx_eqb (sx_ranges rs) (sx_ranges (db_ranges lock commit)))).
+
+(** spec-level oracle: [decode_lock_zero] (Properties/C17.v) evaluated on the output of a REAL
+    Replica.Restore of a snapshot file around the lock page.
+    input  [ps; commit; size of the restored file in pages (rounded down); 1 iff the file size is a
+            whole number of pages; probes [[pgno; source kind; source id; restored kind; restored id] ...]]
+            kind/id = the self-describing content of the page in the source database file and in the
+            restored file (kind 3 id 0 = an all-zero page, kind 0 = beyond the end of the file)
+    output 1 = size is the commit, the lock page is present and zero when commit reaches it, every
+           other probed page up to the commit equals the source's;
+           80 size differs, 81 lock page not zero, 82 a page differs *)
+Definition ltx_restore_image_ok (x : sx) : sx :=
+  let ps := asN (nthx 0 x) in
+  let commit := asN (nthx 1 x) in
+  let size := asN (nthx 2 x) in
+  let whole := asB (nthx 3 x) in
+  let probes := asL (nthx 4 x) in
+  let lock := lockPgno ps in
+  let bad_lock (p : sx) := (asN (nthx 0 p) =? lock) && (lock <=? commit)
+                           && negb ((asN (nthx 3 p) =? 3) && (asN (nthx 4 p) =? 0)) in
+  let bad_page (p : sx) := negb (asN (nthx 0 p) =? lock) && (asN (nthx 0 p) <=? commit)
+                           && negb ((asN (nthx 1 p) =? asN (nthx 3 p)) && (asN (nthx 2 p) =? asN (nthx 4 p))) in
+  sxN (if negb whole || negb (size =? commit) then 80
+       else if existsb bad_lock probes then 81
+       else if existsb bad_page probes then 82 else 1).
